@@ -7,7 +7,7 @@ ID = "C09"
 GEN = []
 RULE = ("grid cases: one history = create + up to 8 operations (overwrite, modify, update, append) on one SDMF or MDMF file with k in 1..3, "
         "DEFAULT_MUTABLE_MAX_SEGMENT_SIZE patched to 24..40 bytes (files of 0..9 segments, sizes and update offsets/lengths on and around "
-        "segment boundaries and the 1/2/4/8-segment counts) or to 512 bytes (files of a few KB), full and partial reads after every "
+        "segment boundaries and the 1/2/4/8-segment counts; modifiers returning None, the unchanged contents, b\"\" and one byte) or to 512 bytes (files of a few KB), full and partial reads after every "
         "operation, server response order drawn from the case seed; non-trivial = at least one in-place (MDMF) update or a multi-segment "
         "read; distinct = distinct (format, k, segment size, operations).  Pure cases: every (old size, offset, length) for small segment "
         "sizes driven through the real TransformingUploadable / setup_encoding_parameters / Retrieve range selection")
@@ -104,6 +104,8 @@ def coq_modifier(m):
         return "(fun old : bytes => Some (firstn %s old ++ %s))" % (T.nat(m[1]), T.bytes_(m[2]))
     if kind == "prepend":
         return "(fun old : bytes => Some (%s ++ old))" % T.bytes_(m[1])
+    if kind == "const":      # the modifier ignores the old contents (b"" = truncate to nothing)
+        return "(fun _ : bytes => Some %s)" % T.bytes_(m[1])
     raise ValueError(m)
 
 
@@ -117,6 +119,8 @@ def py_modifier(m):
         return lambda old, sm, ft: old[:m[1]] + m[2]
     if kind == "prepend":
         return lambda old, sm, ft: m[1] + old
+    if kind == "const":
+        return lambda old, sm, ft: m[1]
     raise ValueError(m)
 
 
@@ -126,6 +130,8 @@ def ref_modifier(m, ref):
         return bytes(ref)
     if kind == "cut":
         return bytes(ref[:m[1]]) + m[2]
+    if kind == "const":
+        return m[1]
     return m[1] + bytes(ref)
 
 
@@ -298,7 +304,7 @@ def pure_update_cases(ctx, pool):
     # thin the model comparison in the quick tier (the oracle above saw every case)
     if ctx.tier == "quick" and not ctx.search:
         r = ctx.rng("pure-thin")
-        idx = sorted(r.sample(range(len(terms)), min(len(terms), 700)))
+        idx = sorted(r.sample(range(len(terms)), min(len(terms), 600)))
     else:
         idx = list(range(len(terms)))
     for i in idx:
@@ -500,8 +506,12 @@ def gen_history(r, big=False):
             ops.append(["overwrite", rbytes(r, n)])
             cur = n
         else:
-            which = r.choice(["cut", "cut", "prepend", "same", "none"])
-            if which == "cut":
+            which = r.choice(["cut", "cut", "prepend", "same", "none", "empty", "empty", "one"])
+            if which in ("empty", "one"):     # boundary results: b"" (truncate to nothing) and a single byte
+                res = b"" if which == "empty" else rbytes(r, 1)
+                ops.append(["modify", ["const", res]])
+                cur = len(res)
+            elif which == "cut":
                 c = r.choice(points(cur))
                 ins = rbytes(r, r.choice([0, 1, seg, r.randrange(2 * seg)]))
                 ops.append(["modify", ["cut", c, ins]])
@@ -684,15 +694,30 @@ def history_term(h, events):
         T.lst(["(%s, %s, %s)" % (o, T.boolean(ok), coq_obs(rd)) for (o, ok, rd) in steps]))
 
 
+def modify_boundary_history(r, fmt, via_version):
+    """Fixed shape, run in every tier: the boundary results a modifier may return on a non-empty
+    file -- None, the unchanged contents, b"" (truncate to nothing), one byte -- each followed by a read."""
+    k = r.choice([1, 2, 3])
+    maxseg = r.choice([24, 30])
+    seg = next_multiple(maxseg, k)
+    rd = lambda: {"read": r.choice(["version", "best"]), "partial": []}
+    ops = [["modify", ["none"], rd()], ["modify", ["same"], rd()], ["modify", ["const", b""], rd()],
+           ["modify", ["none"], rd()], ["modify", ["const", b""], rd()],
+           ["modify", ["const", rbytes(r, 1)], rd()], ["modify", ["prepend", rbytes(r, 2 * seg)], rd()], ["modify", ["cut", 0, b""], rd()]]
+    return {"format": fmt, "k": k, "N": k + 2, "servers": k + 2, "maxseg": maxseg, "seed": r.getrandbits(30),
+            "init": rbytes(r, r.choice([1, seg, 2 * seg + 1])), "ops": ops, "via_version": via_version}
+
+
 def grid_cases(ctx):
     ctx.correspondence("grid-histories-vs-model")
     terms, info = [], []
     n = ctx.n(60, 600)
     nbig = ctx.n(5, 50)
-    for i in range(n + nbig):
+    fixed = [(fmt, via) for fmt in ("sdmf", "mdmf") for via in (False, True)]
+    for i in range(-len(fixed), n + nbig):
         big = i >= n
         r = ctx.rng("hist", i)
-        h = gen_history(r, big=big)
+        h = modify_boundary_history(r, *fixed[i]) if i < 0 else gen_history(r, big=big)
         events = run_history(h)
         seg = next_multiple(h["maxseg"], h["k"])
         inplace = sum(1 for op in h["ops"] if op[0] == "update") if h["format"] == "mdmf" else 0
@@ -718,7 +743,7 @@ def grid_cases(ctx):
                     ctx.count("extending-updates")
                 cur = new
         ok = judge_history(ctx, h, events, "hist")
-        if i < 2:
+        if 0 <= i < 2:
             ctx.sample({"format": h["format"], "k": h["k"], "segment_size": seg, "init_len": len(h["init"]),
                         "ops": [[op[0]] + ([len(op[1]), op[2]] if op[0] == "update" else []) for op in h["ops"]],
                         "events": [list(ev[:5]) + ([len(ev[5])] if ev[0] == "read" and ev[4] == "ok" else []) for ev in events]})
